@@ -56,8 +56,10 @@ def verdict(n, assoc_obj, m):
 def stage(rep):
     from . import node as nodemod
     from bromelia.setup import DiameterAssociation
-    vecs, res = vectors.gen("Gen_Validate", ["Validate", "SequencesExt"], DEFS, "Vecs", theorems=("StdValid", "OnlyPeer", "NoForeignIdentity"), timeout=900)
-    rep.tlc(f"Gen_Validate ({len(vecs)} messages, 3 theorems)", res)
+    vecs, res = vectors.gen("Gen_Validate", ["Validate", "SequencesExt"], DEFS, "Vecs", theorems=("StdValid", "OnlyPeer", "NoForeignIdentity", "~OnlyPeerHistoric"),
+                            timeout=900)
+    rep.tlc(f"Gen_Validate ({len(vecs)} messages: single and double mutations; 3 theorems; the count-only verdict of the tree before "
+            f"F-C06-foreign-identity-counted shown to accept a foreign identity)", res)
     if len(vecs) < 500 or not any(v["v"] for v in vecs) or all(v["v"] for v in vecs):
         raise vectors.tlc.TlcError(f"Gen_Validate: degenerate vector set ({len(vecs)})")
     nbad = 0
